@@ -318,6 +318,21 @@ func errorIsReturned(info *types.Info, call *ast.CallExpr, parents map[ast.Node]
 		} else if blk, ok := parents[x].(*ast.BlockStmt); ok {
 			for i, s := range blk.List {
 				if s == ast.Stmt(x) && i+1 < len(blk.List) {
+					// statements that do not touch the error may sit between the call and its test
+					j := i + 1
+					for j < len(blk.List)-1 && !assignsObj(info, blk.List[j], errObj) {
+						if _, isIf := blk.List[j].(*ast.IfStmt); isIf {
+							break
+						}
+						if _, isSw := blk.List[j].(*ast.SwitchStmt); isSw {
+							break
+						}
+						j++
+					}
+					if j != i+1 {
+						ifs, _ = blk.List[j].(*ast.IfStmt)
+						continue
+					}
 					ifs, _ = blk.List[i+1].(*ast.IfStmt)
 					// tagless switch { case err != nil: return … } is the other idiom
 					if sw, ok := blk.List[i+1].(*ast.SwitchStmt); ok && sw.Tag == nil {
@@ -474,4 +489,20 @@ func checkC19(r *core.Result) {
 	}
 	r.Ob("N-advance", "(*Decoder).DecodeNested", prog.Pos(dn.Pos()), okStore, detail)
 	r.Floor("obligations", len(r.Obligations), 12)
+}
+
+// assignsObj: the statement assigns to obj.
+func assignsObj(info *types.Info, s ast.Stmt, obj types.Object) bool {
+	found := false
+	ast.Inspect(s, func(n ast.Node) bool {
+		if as, ok := n.(*ast.AssignStmt); ok {
+			for _, l := range as.Lhs {
+				if id, ok := l.(*ast.Ident); ok && (info.Uses[id] == obj || info.Defs[id] == obj) {
+					found = true
+				}
+			}
+		}
+		return true
+	})
+	return found
 }
